@@ -11,10 +11,10 @@ GRIDW = 4096
 TOPNAMES = {2: "2-clique", 3: "3-clique", 4: "4-clique"}
 
 
-def clean_network(rng, n, sizes, density):
+def clean_network(rng, n, sizes, density, names=None):
     """place cliques of the given sizes on distinct vertices, edge-disjoint (motifs may share vertices).
     returns (edges [(a,b,top,mid)], jd list of tuples, tops list)"""
-    tops = [TOPNAMES[s] for s in sizes]
+    tops = list(names) if names else [TOPNAMES[s] for s in sizes]
     used = set()
     edges = []
     jd = [[0] * len(sizes) for _ in range(n)]
